@@ -90,7 +90,8 @@ pub fn gen_transform(rng: &mut Rng, max_log: u32) -> TransformParams {
             // sentinel entry of the skew table (index 2^j - 1) although
             // skew_delta is not zero
             let d = (size >> rng.below(n as usize + 1)).max(1);
-            let j = rng.range(d.trailing_zeros() as usize + 1, 16);
+            let lo = (d.trailing_zeros() as usize + 1).min(16);
+            let j = rng.range(lo, 16);
             ((1usize << j) - d).min(max_sd)
         }
         _ => rng.range(0, max_sd),
